@@ -485,3 +485,51 @@ func checkSharedSlotStoresPropagate(c *Ctx, rule string) {
 	}
 	c.Floor(rule, n, 3, "stores into shared slots in functions that lock the Shared")
 }
+
+// checkInvalidMarkSurvivesThrow (C35.9): callRule clears the field's invalid mark before it runs
+// the rule; if the rule throws, the mark must come back (a deferred store into r.invalid),
+// otherwise the next read returns the stale cached value as if it were current.
+func checkInvalidMarkSurvivesThrow(c *Ctx, rule string) {
+	p := c.P
+	fs := c.method(rule, "core", "SuRecord", "callRule")
+	catch := p.DeclaredMethod("core", "SuRecord", "catchRule")
+	invalidF := p.Field("core", "suRec", "invalid")
+	if fs == nil || !c.need(rule, "core.SuRecord.catchRule", catch) || !c.need(rule, "core.suRec.invalid", invalidF) {
+		return
+	}
+	info := fs.Info()
+	clear := Ev{"clear", func(_ *FuncSrc, nd ast.Node) bool {
+		call, ok := nd.(*ast.CallExpr)
+		return ok && IsBuiltin(info, call, "delete") && len(call.Args) == 2 && FieldOf(info, call.Args[0]) == invalidF
+	}}
+	fl := &Flow{P: p, Node: Labeler(clear, CallOf("catchRule", catch)), NoSummary: func(*types.Func) bool { return true }}
+	res := fl.Analyze(fs)
+	sites := res.Of("catchRule")
+	c.Floor(rule, len(sites), 1, "rule evaluations in callRule")
+	for _, s := range sites {
+		if !s.Before.Has("clear") {
+			c.Obl(rule, "callRule: the invalid mark is cleared only after the rule returned", p.Pos(s.Node), true, "")
+			continue
+		}
+		restored := false
+		ast.Inspect(fs.Body, func(nd ast.Node) bool {
+			ds, ok := nd.(*ast.DeferStmt)
+			if !ok || ds.Pos() > s.Node.Pos() {
+				return true
+			}
+			ast.Inspect(ds, func(m ast.Node) bool {
+				if as, ok := m.(*ast.AssignStmt); ok {
+					for _, l := range as.Lhs {
+						if ix, ok := ast.Unparen(l).(*ast.IndexExpr); ok && FieldOf(info, ix.X) == invalidF {
+							restored = true
+						}
+					}
+				}
+				return true
+			})
+			return true
+		})
+		c.Obl(rule, "callRule: a rule that throws leaves its field marked invalid", p.Pos(s.Node), restored,
+			"the invalid mark is deleted before the rule runs and nothing restores it when the rule panics: the next read of the field returns the old cached value although the rule would not compute it")
+	}
+}
